@@ -13,5 +13,5 @@ for id in C01 C02 C03 C04 C05 C06 C07 C08 C09 C10 C11 C12 C13 C14 C15 C16 C17 C1
   if [ "$rc" != "0" ]; then bad="$bad $id"; echo "--- $id (exit $rc)"; grep -v "^info\|KNOWN-FINDING\|^PASS\|^FAIL\|^VIOLATION\|WARNING" $out/$id.log | head -6; fi
 done
 rm -rf $out
-git -C /repo checkout -- . 
+git -C /repo checkout -- . && git -C /repo clean -fdq
 echo "RESULT $(basename $(dirname $(dirname $(dirname $P))))/$(basename $(dirname $P)): ${bad:-silent}"
